@@ -7,9 +7,14 @@
      secret     0 the caller's configured secret | 1 a wrong one | 2 none
      verifier   0 the verifier whose challenge is in the code | 1 another | 2 none
      challenge  0 S256 | 1 plain | 2 empty method | 3 unknown method | 4 no challenge at all
-     redirect   0 the one bound into the code | 1 another
+     redirect   0 the one bound into the code | 1 another | 2 parameter absent | 3 present but empty
+                | 4 the bound one with a trailing slash | 5 the bound one in upper case
+                | 6 sent twice: bound one first, another second | 7 sent twice: another first
      code       0 fresh | 1 expired | 2 tampered | 3 issued to another client | 4 a session cookie | 5 an access token
-     location   0 Authorization header | 1 form fields | 2 header, url-escaped *)
+     location   0 Authorization header | 1 form fields | 2 header, url-escaped
+
+   The same enumeration runs once per signer configuration (RSA-3072, P-256, P-384, P-521, each
+   with an Ed25519 SSH CA; P-384 with a sibling's RSA public key) on the sub-product [signer_dims]. *)
 From Coq Require Import String ZArith NArith List Bool.
 From KM Require Import Base.Bytes Model.Tokens Model.OIDC Model.TokenCases.
 Import ListNotations.
@@ -21,16 +26,28 @@ Record c12env := {
   e_V : bs; e_W : bs;             (* the right and a wrong verifier *)
   e_HV : bs; e_HW : bs;           (* BASE64URL(SHA256(.)) of each, computed by crypto/sha256 *)
   e_red_same : bs; e_red_diff : bs;
+  e_red_slash : bs; e_red_upper : bs;   (* e_red_same ++ "/", strings.ToUpper e_red_same *)
   e_codes : list token }.         (* index ((caller*5)+challenge)*6+code *)
 
 Definition tok_none : token := {| t_signer := 0%N; t_alg := 0%N; t_tampered := true; t_claims := [] |}.
+
+(* url.Values.Get: the first value of the parameter, "" when it was not sent *)
+Definition form_get (vals : list bs) : bs := match vals with v :: _ => v | [] => [] end.
+
+(* the values of redirect_uri in the request body, in the order sent *)
+Definition redirect_values (e : c12env) (rd : nat) : list bs :=
+  match rd with
+  | 0 => [e_red_same e] | 1 => [e_red_diff e] | 2 => [] | 3 => [[]]
+  | 4 => [e_red_slash e] | 5 => [e_red_upper e]
+  | 6 => [e_red_same e; e_red_diff e] | _ => [e_red_diff e; e_red_same e]
+  end%nat.
 
 Definition mk_req (e : c12env) (cl sm vm ck rd cs loc : nat) : treq :=
   let '(id, rsec) := nth cl (e_callers e) ([], []) in
   let secret := match sm with O => rsec | S O => e_wrong_secret e | _ => [] end in
   let verifier := match vm with O => e_V e | S O => e_W e | _ => [] end in
   let vhash := match vm with O => e_HV e | S O => e_HW e | _ => [] end in
-  let redirect := match rd with O => e_red_same e | _ => e_red_diff e end in
+  let redirect := form_get (redirect_values e rd) in
   let code := nth ((cl * 5 + ck) * 6 + cs)%nat (e_codes e) tok_none in
   let in_form := match loc with S O => true | _ => false end in
   {| tr_post := true; tr_grant := gt_authcode; tr_redirect := redirect; tr_code := code;
@@ -39,10 +56,28 @@ Definition mk_req (e : c12env) (cl sm vm ck rd cs loc : nat) : treq :=
      tr_form_client := if in_form then id else [];
      tr_form_secret := if in_form then secret else [] |}.
 
-Definition all_combos : list (nat * nat * nat * nat * nat * nat * nat) :=
+Definition combo := (nat * nat * nat * nat * nat * nat * nat)%type.
+
+Record dims := { d_cl : list nat; d_sm : list nat; d_vm : list nat; d_ck : list nat; d_rd : list nat;
+                 d_cs : list nat; d_loc : list nat }.
+
+Definition combos_of (d : dims) : list combo :=
   flat_map (fun cl => flat_map (fun sm => flat_map (fun vm => flat_map (fun ck => flat_map (fun rd =>
-  flat_map (fun cs => map (fun loc => (cl, sm, vm, ck, rd, cs, loc)) (seq 0 3)) (seq 0 6)) (seq 0 2)) (seq 0 5))
-  (seq 0 3)) (seq 0 3)) (seq 0 3).
+  flat_map (fun cs => map (fun loc => (cl, sm, vm, ck, rd, cs, loc)) (d_loc d)) (d_cs d)) (d_rd d)) (d_ck d))
+  (d_vm d)) (d_sm d)) (d_cl d).
+
+Definition full_dims : dims :=
+  {| d_cl := seq 0 3; d_sm := seq 0 3; d_vm := seq 0 3; d_ck := seq 0 5; d_rd := seq 0 8; d_cs := seq 0 6;
+     d_loc := seq 0 3 |}.
+
+(* per signer configuration: both clients, every secret, right/no verifier, S256/no challenge,
+   redirect same/other/absent, code fresh/of the other client, header/form *)
+Definition signer_dims : dims :=
+  {| d_cl := [0; 1]; d_sm := [0; 1; 2]; d_vm := [0; 2]; d_ck := [0; 4]; d_rd := [0; 1; 2]; d_cs := [0; 3];
+     d_loc := [0; 1] |}%nat.
+
+Definition all_combos : list combo := combos_of full_dims.
+Definition signer_combos : list combo := combos_of signer_dims.
 
 Definition req_of (e : c12env) (k : nat * nat * nat * nat * nat * nat * nat) : treq :=
   let '(cl, sm, vm, ck, rd, cs, loc) := k in mk_req e cl sm vm ck rd cs loc.
@@ -50,8 +85,8 @@ Definition req_of (e : c12env) (k : nat * nat * nat * nat * nat * nat * nat) : t
 Definition released (r : tresult) : bool := match r with Release _ _ => true | Refuse _ => false end.
 
 (* indices on which the observed released/refused differs from the model at both clock readings *)
-Definition product_mismatches (i : idp) (e : c12env) (t0 t1 : Z) (observed : bs) : list nat :=
-  let fix go (l : list (nat * nat * nat * nat * nat * nat * nat)) (o : bs) (n : nat) : list nat :=
+Definition product_mismatches_on (combos : list combo) (i : idp) (e : c12env) (t0 t1 : Z) (observed : bs) : list nat :=
+  let fix go (l : list combo) (o : bs) (n : nat) : list nat :=
     match l, o with
     | [], [] => []
     | k :: l', b :: o' =>
@@ -61,14 +96,16 @@ Definition product_mismatches (i : idp) (e : c12env) (t0 t1 : Z) (observed : bs)
         then go l' o' (S n) else n :: go l' o' (S n)
     | _, _ => [n]           (* length mismatch *)
     end in
-  go all_combos observed O.
+  go combos observed O.
+
+Definition product_mismatches := product_mismatches_on all_combos.
 
 (* a released case: index in the product, claims of the ID token and of the access token as
    decoded from the response, what userinfo then answered for that access token *)
-Definition release_bad (i : idp) (e : c12env) (t0 t1 : Z)
+Definition release_bad_on (combos : list combo) (i : idp) (e : c12env) (t0 t1 : Z)
            (k : nat * claimset * claimset * option bs) : bool :=
   let '(n, idc, acc, ui) := k in
-  match nth_opt all_combos n with
+  match nth_opt combos n with
   | None => true
   | Some combo =>
       let chk (now : Z) :=
@@ -83,6 +120,51 @@ Definition release_bad (i : idp) (e : c12env) (t0 t1 : Z)
         | Refuse _ => false
         end in
       negb (chk t0 || chk t1)
+  end.
+
+Definition release_bad := release_bad_on all_combos.
+
+(* ---------------------------------------------------------------- signer configurations *)
+
+(* what the harness saw of one configuration: KeymasterPublicKeys after start-up, the entries of
+   /idp/oauth2/jwks (key number by fingerprint, key type from kty/crv), the discovery document's
+   id_token_signing_alg_values_supported; None where the daemon did not start *)
+Definition keytype_code (t : keytype) : N :=
+  match t with KRsa => 1 | KP256 => 2 | KP384 => 3 | KP521 => 4 | KEd25519 => 5 | KOther => 99 end%N.
+
+Definition pairs_eqb (x y : list (N * N)) : bool :=
+  (length x =? length y)%nat && forallb (fun p => (fst (fst p) =? fst (snd p))%N && (snd (fst p) =? snd (snd p))%N) (combine x y).
+
+Definition nlist_eqb (x y : list N) : bool :=
+  (length x =? length y)%nat && forallb (fun p => (fst p =? snd p)%N) (combine x y).
+
+(* the JWKS is compared on the entries whose key type can be a signer's (RSA, ECDSA): whether the
+   Ed25519 SSH CA - which never signs a token - is published is not observable to the property *)
+Definition signing_entry (e : N * N) : bool := ((snd e =? 1) || (snd e =? 2) || (snd e =? 3) || (snd e =? 4))%N.
+
+Definition keys_bad (k : keyconf * option (list (N * N) * list (N * N) * list N)) : bool :=
+  let '(kc, obs) := k in
+  match load kc, obs with
+  | None, None => false
+  | Some keys, Some (loaded, jwks, adv) =>
+      negb (pairs_eqb (map (fun p => (pk_id p, keytype_code (pk_type p))) keys) loaded &&
+            pairs_eqb (filter signing_entry (map (fun e => (fst e, keytype_code (snd e))) (jwks_of keys)))
+                      (filter signing_entry jwks) &&
+            nlist_eqb advertised_algs adv)
+  | _, _ => true
+  end.
+
+(* the idp the model derives from the key files = the one the harness read off the running state;
+   [algs]: the header algorithms seen on released ID and access tokens *)
+Definition idp_bad (k : keyconf * idp * list N) : bool :=
+  let '(kc, i, algs) := k in
+  match load kc with
+  | None => true
+  | Some keys =>
+      let st := server_of (s_issuer (srv i)) (s_userinfo (srv i)) keys (kc_signer kc) in
+      negb (pairs_eqb (s_keys st) (s_keys (srv i)) && (s_signer st =? s_signer (srv i))%N &&
+            (s_signer_alg st =? s_signer_alg (srv i))%N &&
+            forallb (fun a => (a =? alg_of (pk_type (kc_signer kc)))%N) algs)
   end.
 
 (* the authorization step: request (as sent), who was logged in, clock readings, the claims of
